@@ -1,4 +1,4 @@
-import IsoMdl.Model.X509
+import IsoMdl.Spec.X509
 namespace IsoMdl.Driver
 open IsoMdl.X509
 
@@ -70,6 +70,10 @@ def x509Op : List String → Option String
       let l ← parseCert leaf; let as ← anchors.mapM parseAnchor
       let errs := validate r l as
       pure (if errs.isEmpty then "ok" else "err " ++ ",".intercalate ((errs.map errKind).mergeSort (· ≤ ·)))
+  | "spec.c12" :: rs :: realOk :: leaf :: anchors => do
+      let r ← (match rs with | "mdl" => some Ruleset.mdl | "aamva" => some .aamvaMdl | "reader" => some .mdlReaderOneStep | _ => none)
+      let l ← parseCert leaf; let as ← anchors.mapM parseAnchor
+      pure (toString ((realOk == "t") == conformsB r l as))
   | _ => none
 
 end IsoMdl.Driver
